@@ -435,6 +435,23 @@ def handle (toks : List String) : String :=
       s!"{oe.z},{oe.y},{oe.x} " ++
         showList (fun (r : Option Int) => match r with | some v => toString v | none => "wrap") vals
     | _, _, _, _ => "bad-request"
+  | ["down-sel", method, infoTy, ty, ext, fac, outside, data] =>
+    -- get_downscaler(method, info, options) followed by downscale: selection AND options through the model
+    match parseTy ty, parseList parseNat ext, parseList parseNat fac, parseList parseInt data with
+    | some t, some [ez, ey, ex], some [fz, fy, fx], some d =>
+      let o : Option Int := if outside == "none" then none else parseInt outside
+      match Down.getDownscaler method infoTy o with
+      | none => "not-implemented"
+      | some sel =>
+        let e : Down.Ext := ⟨ez, ey, ex⟩
+        let arr := d.toArray
+        let f : Down.Arr3 := fun z y x => arr[(z * e.y + y) * e.x + x]!
+        let oe := Down.outExt e fz fy fx
+        let vals := (List.range oe.z).flatMap fun z => (List.range oe.y).flatMap fun y =>
+          (List.range oe.x).map fun x => sel.voxel t f e fz fy fx z y x
+        s!"{oe.z},{oe.y},{oe.x} " ++
+          showList (fun (r : Option Int) => match r with | some v => toString v | none => "wrap") vals
+    | _, _, _, _ => "bad-request"
   | ["pyr-axis", os, ns, oc, nc] =>
     match parseNat os, parseNat ns, parseNat oc, parseNat nc with
     | some os, some ns, some oc, some nc =>
